@@ -61,6 +61,9 @@ impl Source {
     fn push_str_impl(&mut self, src: &str, interpret_syntax: bool) {
         let lines = src.lines().collect::<Vec<_>>();
         for (i, line) in lines.iter().enumerate() {
+            // Text that continues a line which already has content is appended
+            // verbatim: only whitespace at the start of a line is ours to change.
+            let at_line_start = !self.continuing_line;
             if !self.continuing_line {
                 if !line.is_empty() {
                     for _ in 0..self.indent {
@@ -76,12 +79,12 @@ impl Source {
             }
 
             if interpret_syntax && !self.in_line_comment {
-                if trimmed.starts_with('}') && self.s.ends_with("  ") {
+                if trimmed.starts_with('}') && self.s.ends_with("  ") && self.current_line_is_blank() {
                     self.s.pop();
                     self.s.pop();
                 }
             }
-            self.s.push_str(if lines.len() == 1 {
+            self.s.push_str(if lines.len() == 1 || !at_line_start {
                 line
             } else {
                 line.trim_start()
@@ -102,6 +105,15 @@ impl Source {
                 self.newline();
             }
         }
+    }
+
+    /// Whether everything after the last newline is whitespace (i.e. just the
+    /// indentation emitted for the current line).
+    fn current_line_is_blank(&self) -> bool {
+        self.s
+            .rsplit('\n')
+            .next()
+            .is_none_or(|line| line.trim().is_empty())
     }
 
     pub fn indent(&mut self, amt: usize) {
